@@ -428,3 +428,45 @@ def r_validateuc(root):
         if not ok:
             for pr in ("C14", "C23"): out.append(Finding(pr, "C14.r", MM, W, "classes=%s" % names, "with the user classes %s of which %s were bound to rules (%s) validate_user_classes %s; documented: %s - an unbound class has no attribute storage, the first load would fail half-way through the instrumentation of the user classes" % (names, used, what, "passes" if k == "ret" else "raises %s" % v, "it passes" if want == "ret" else "TextXSemanticError '<name> class is not used in the grammar'"), witness="metamodel_from_str(grammar, classes=[Used, INT]) with class INT: pass"))
     return inst, out
+
+def r_mmfromstr(root):
+    """C25.l  metamodel_from_str decided by evaluation with recording stand-ins: without a meta-model one is created from the
+    keyword arguments, the grammar is compiled into it under the given file name and the user classes are validated; with a
+    meta-model given (a grammar imported by another grammar, a grammar extending a meta-model) that meta-model is used as it
+    is - none of its options (ignore_case, skipws, ...) is written - and the user classes are not validated again."""
+    from sa.exprs import HS
+    out = []; inst = 0
+    t = load(root, MM); fn = find(t, "metamodel_from_str"); ps = [a.arg for a in fn.args.args]
+    if ps[:2] != ["lang_desc", "metamodel"] or not fn.args.kwarg: raise AnalysisError("metamodel_from_str: parameters %s" % ps)
+    fns = {k: v for k, v in helper_functions(root, MM, "metamodel_from_str").items() if k not in ("metamodel_from_str", "metamodel_from_file")}
+    W = "metamodel_from_str"
+    def run(given, kwargs):
+        ev = []
+        def new_mm(**kw):
+            m_ = HS({".kind": "metamodel", ".made_with": dict(kw), ".validate_user_classes": pyeval.PyFn(lambda: ev.append(("validate", "new")))}); ev.append(("create", dict(kw))); return m_
+        env = {"__functions__": fns, "__module__": t, "lang_desc": "Model: 'x';", "metamodel": given, fn.args.kwarg.arg: dict(kwargs), "TextXMetaModel": pyeval.PyFn(new_mm),
+               "language_from_str": pyeval.PyFn(lambda ld, mm_, fname=None: ev.append(("compile", ld, mm_, fname)))}
+        for p_ in ps[2:]: raise AnalysisError("metamodel_from_str: unexpected parameter %s" % p_)
+        try: return "ret", pyeval.run_block(fn.body, env), ev
+        except pyeval.Raised as r_: return "raise", r_.cls, ev
+        except pyeval.Unsupported as u_: raise AnalysisError("metamodel_from_str: outside the evaluated subset: %s" % u_)
+    def rep(what, ok, msg, props_):
+        nonlocal inst
+        inst += 1
+        for pr in props_:
+            ob(pr, "C25.l", MM, W, what, ok)
+            if not ok: out.append(Finding(pr, "C25.l", MM, W, what, msg))
+    kw = {"ignore_case": True, "file_name": "g/main.tx", "skipws": False}
+    k, v, ev = run(None, kw)
+    cr = [e for e in ev if e[0] == "create"]; cp = [e for e in ev if e[0] == "compile"]
+    ok = k == "ret" and len(cr) == 1 and cr[0][1] == kw and len(cp) == 1 and cp[0][1] == "Model: 'x';" and cp[0][2] is v and cp[0][3] == "g/main.tx" and ev[-1] == ("validate", "new") and isinstance(v, dict) and v.get(".made_with") == kw
+    rep("no meta-model given", ok, "metamodel_from_str(grammar, ignore_case=True, file_name='g/main.tx', skipws=False) %s after %s; documented: one meta-model is created from exactly these keyword arguments, the grammar is compiled into it under that file name, the user classes are validated, that meta-model is returned" % ("returns" if k == "ret" else "raises %s" % v, [e[0] for e in ev]), ("C25", "C20", "C22"))
+    for what, kw2 in (("a grammar imported into an existing meta-model", {"file_name": "g/lib.tx"}), ("an existing meta-model and options for this grammar only", {"file_name": "g/lib.tx", "ignore_case": False, "skipws": True})):
+        given = HS({".kind": "metamodel", ".ignore_case": True, ".skipws": False, ".ws": " ", ".autokwd": True, ".file_name": "g/main.tx", ".validate_user_classes": pyeval.PyFn(lambda: ev.append(("validate", "given")))})
+        before = {k_: v_ for k_, v_ in given.items()}
+        k, v, ev = run(given, kw2)
+        cp = [e for e in ev if e[0] == "compile"]
+        same = set(given) == set(before) and all(given[k_] is before[k_] or given[k_] == before[k_] for k_ in before)
+        ok = k == "ret" and v is given and not [e for e in ev if e[0] in ("create", "validate")] and len(cp) == 1 and cp[0][2] is given and cp[0][3] == "g/lib.tx" and same
+        rep(what, ok, "metamodel_from_str(grammar, metamodel=<meta-model with ignore_case=True, skipws=False, autokwd=True>, %s) %s after %s; the meta-model's options afterwards: ignore_case=%r skipws=%r autokwd=%r; documented: the grammar is compiled into the given meta-model, which keeps every option it was created with (its other grammars were compiled under them) - no new meta-model, no second validation of the user classes" % (", ".join("%s=%r" % x_ for x_ in kw2.items()), "returns the given meta-model" if k == "ret" and v is given else ("raises %s" % v if k == "raise" else "returns another object"), [e[0] + (":" + e[1] if e[0] == "validate" else "") for e in ev], given.get(".ignore_case"), given.get(".skipws"), given.get(".autokwd")), ("C25", "C20", "C22", "C21"))
+    return inst, out
